@@ -417,8 +417,14 @@ async def _main(world: SchedWorld) -> None:
     world.rec("begin", epoch_us=CLOCK["epoch_us"])
     sctx = contextvars.copy_context()
     sctx.run(NODE.set, "scheduler")
-    if script.get("entry", "loop") == "task":
+    entry = script.get("entry", "loop")
+    if entry == "task":
         coro = run_scheduler_task(scheduler, run_startup=False)
+    elif entry in ("cli", "cli_skip"):
+        # the `taskiq scheduler` command's coroutine, with the scheduler object handed over directly
+        from taskiq.cli.scheduler.args import SchedulerArgs
+        args = SchedulerArgs(scheduler=scheduler, modules=[], configure_logging=False, fs_discover=False, skip_first_run=(entry == "cli_skip"))
+        coro = run_mod.run_scheduler(args)
     else:
         coro = run_mod.run_scheduler_loop(scheduler)
     task = loop.create_task(coro, context=sctx)
